@@ -14,6 +14,7 @@ import (
 	"io"
 	"os"
 	"path/filepath"
+	"strings"
 	"time"
 
 	"github.com/cloudwego/thriftgo/plugin"
@@ -40,33 +41,51 @@ func main() {
 	if dir == "" {
 		dir = "."
 	}
+	data, rerr := io.ReadAll(os.Stdin)
+	// decode first: a plugin parameter slot=<name> selects a sub-directory (several plugins in one run)
+	var req *plugin.Request
+	var derr error
+	var dpanic interface{}
+	func() {
+		defer func() { dpanic = recover() }()
+		req, derr = plugin.UnmarshalRequest(data)
+	}()
+	if req != nil {
+		for _, p := range req.PluginParameters {
+			if strings.HasPrefix(p, "slot=") {
+				dir = filepath.Join(dir, strings.TrimPrefix(p, "slot="))
+			}
+		}
+	}
 	os.MkdirAll(dir, 0o755)
 	os.WriteFile(filepath.Join(dir, "started"), []byte(fmt.Sprint(os.Getpid())), 0o644)
-	data, err := io.ReadAll(os.Stdin)
-	if err != nil {
-		os.WriteFile(filepath.Join(dir, "read-error"), []byte(err.Error()), 0o644)
+	if rerr != nil {
+		os.WriteFile(filepath.Join(dir, "read-error"), []byte(rerr.Error()), 0o644)
 	}
 	os.WriteFile(filepath.Join(dir, "stdin.bin"), data, 0o644)
+	switch {
+	case dpanic != nil:
+		os.WriteFile(filepath.Join(dir, "decode-panic"), []byte(fmt.Sprint(dpanic)), 0o644)
+	case derr != nil:
+		os.WriteFile(filepath.Join(dir, "decode-error"), []byte(derr.Error()), 0o644)
+	default:
+		b, _ := json.Marshal(guest.Canon(req))
+		os.WriteFile(filepath.Join(dir, "request.json"), b, 0o644)
+	}
 	var sc script
-	if s := os.Getenv("REC_SCRIPT"); s != "" {
+	env := "REC_SCRIPT"
+	if req != nil {
+		for _, p := range req.PluginParameters {
+			if strings.HasPrefix(p, "slot=") && os.Getenv("REC_SCRIPT_"+strings.TrimPrefix(p, "slot=")) != "" {
+				env = "REC_SCRIPT_" + strings.TrimPrefix(p, "slot=")
+			}
+		}
+	}
+	if s := os.Getenv(env); s != "" {
 		if err := json.Unmarshal([]byte(s), &sc); err != nil {
 			os.WriteFile(filepath.Join(dir, "script-error"), []byte(err.Error()), 0o644)
 		}
 	}
-	func() {
-		defer func() {
-			if e := recover(); e != nil {
-				os.WriteFile(filepath.Join(dir, "decode-panic"), []byte(fmt.Sprint(e)), 0o644)
-			}
-		}()
-		req, err := plugin.UnmarshalRequest(data)
-		if err != nil {
-			os.WriteFile(filepath.Join(dir, "decode-error"), []byte(err.Error()), 0o644)
-			return
-		}
-		b, _ := json.Marshal(guest.CanonShared(req))
-		os.WriteFile(filepath.Join(dir, "request.json"), b, 0o644)
-	}()
 	if sc.Stderr != "" {
 		fmt.Fprint(os.Stderr, sc.Stderr)
 	}
